@@ -4,7 +4,7 @@ CHECKS = {
     "C12": {
         "level": "exploration",
         "technique": "runtime monitoring: reference-scanner oracle on the real filter_ignore_block / extract_reuse_info / lint --json, recording contract in situ",
-        "text": "every token sequence up to length 4 (quick) / 6 (thorough) in four renderings is run through the real filter and the real "
+        "text": "every token sequence up to length 4 (quick) / 7 (thorough) in four renderings is run through the real filter and the real "
                 "extractor and compared with an independent scanner; random longer sequences; a sample goes through `reuse lint --json` "
                 "with an icontract post-condition on filter_ignore_block evaluated in situ. Exhaustive for the bounded token language only.",
         "note": "trusted: the reference scanner (12 lines), license_expression accepting LicenseRef- values; longer or differently "
@@ -18,7 +18,7 @@ CHECKS.update({
         "technique": "runtime monitoring: specification-model oracle over generated project trees, real `reuse lint --json` in process (and through the real worker pool), EACCES failpoints from an audit hook",
         "text": "compliant-by-construction trees with 0-6 injected defects of ten kinds are linted by the real CLI; the eight issue "
                 "collections, summary.compliant and the exit status are compared with an independent model of the specification "
-                "computed from the generation recipe. 400 (quick) / 25 000 (thorough) trees; all defect pairs forced in thorough.",
+                "computed from the generation recipe. 400 (quick) / 60 000 (thorough) trees; all defect pairs forced in thorough.",
         "note": "trusted: the spec model in vlib/trees.py; only plain forms of each dimension (own-line tags, exact-path tables); "
                 "held on the executions produced, not a proof over all trees",
     },
